@@ -1227,7 +1227,7 @@ func phase3Systematic(emit func(cdoc)) {
 		if kind == "Responses" {
 			// response names that parse as numbers without being three digits, or whose canonical rendering is shorter than
 			// their spelling: whatever the decoder makes of them, a second pass must not change it again
-			for _, n := range []string{"020", "007", "000", "+20", "-07", "-20", "20", "2000", "+200", "0200", "1e2", " 200"} {
+			for _, n := range []string{"020", "007", "000", "+20", "-07", "-20", "20", "2000", "+200", "0200", "1e2", " 200", "7", "99", "1000", "-1", "0", "42"} {
 				emit(cdoc{kind: kind, doc: jObj(mem(n, mustJV(`{"description":"d"}`)), mem("default", mustJV(`{"description":"x"}`))), phase: 3, tags: []string{"phase3", "mutation:edge-name", "systematic", "status-spelling"}})
 			}
 		}
